@@ -53,6 +53,8 @@ type Contract struct {
 	Line         int
 	Asserts      []Clause
 	Defines      []Clause // iface: definitional postconditions (assumed at calls, not checked on implementers)
+	PanicInv     []Clause // recover scope: holds whenever a panic reaches the deferred closure (assumed; see DESIGN)
+	ResetFirst   []Clause // fields that must be overwritten before anything else happens
 	Owns         []string // type names (pkg.Type) whose objects are private mutable state: writes to them need no frame obligation
 	Establishes  bool     // rep-check function: the invariant of the receiver's type is NOT assumed
 	Decreases    *Clause  // recursion measure
@@ -67,13 +69,22 @@ type Contract struct {
 func (c *Contract) Key() string { return c.Pkg + "." + c.Func }
 
 var clauseKW = map[string]bool{
-	"func": true, "iface": true, "type": true, "lemma": true, "property": true, "requires": true, "ensures": true,
+	"func": true, "iface": true, "type": true, "lemma": true, "predicate": true, "panic_invariant": true, "reset_first": true, "property": true, "requires": true, "ensures": true,
 	"panics_if": true, "panics_only_if": true, "panics_iff": true, "maypanic": true, "modifies": true,
 	"let": true, "loop": true, "invariant": true, "decreases": true, "inline": true, "trusted": true,
 	"recover": true, "bounded_view": true, "end": true, "defines": true, "view": true, "split": true, "establishes": true, "owns": true,
 }
 
+// Predicate is a named contract-language macro:  //@ predicate name(a int, b string) = expr
+type Predicate struct {
+	Name   string
+	Pkg    string
+	Params []XBind
+	Body   Clause
+}
+
 type ContractSet struct {
+	Preds  map[string]*Predicate // key pkg.name
 	Funcs  map[string]*Contract // key pkg.Func
 	Ifaces map[string]*Contract // key pkg.Iface.Method
 	Types  map[string]*Contract // key pkg.Type
@@ -124,7 +135,7 @@ func parseContractText(text, path, pkg string, cs *ContractSet) error {
 		fields := strings.Fields(body)
 		kw := fields[0]
 		if clauseKW[kw] {
-			if kw == "func" || kw == "iface" || kw == "type" || kw == "lemma" {
+			if kw == "func" || kw == "iface" || kw == "type" || kw == "lemma" || kw == "predicate" {
 				flush()
 			}
 			cur = append(cur, rawClause{kw, strings.TrimSpace(body[len(kw):]), i + 1})
@@ -140,6 +151,28 @@ func parseContractText(text, path, pkg string, cs *ContractSet) error {
 	for _, b := range blocks {
 		head := b[0]
 		c := &Contract{Pkg: pkg, File: base, Line: head.line, Loops: map[int]*LoopContract{}}
+		if head.kw == "predicate" {
+			txt := head.text
+			for _, rc := range b[1:] {
+				txt += " " + rc.kw + " " + rc.text
+			}
+			eqi := strings.Index(txt, "=")
+			lp := strings.Index(txt, "(")
+			rp := strings.Index(txt, ")")
+			if eqi < 0 || lp < 0 || rp < lp || eqi < rp {
+				return fmt.Errorf("%s:%d: predicate syntax: name(a int, b string) = expr", path, head.line)
+			}
+			pr := &Predicate{Name: strings.TrimSpace(txt[:lp]), Pkg: pkg, Body: Clause{Text: strings.TrimSpace(txt[eqi+1:]), File: base, Line: head.line}}
+			for _, prm := range strings.Split(txt[lp+1:rp], ",") {
+				f := strings.Fields(prm)
+				if len(f) != 2 {
+					return fmt.Errorf("%s:%d: predicate parameter %q", path, head.line, prm)
+				}
+				pr.Params = append(pr.Params, XBind{f[0], f[1]})
+			}
+			cs.Preds[pkg+"."+pr.Name] = pr
+			continue
+		}
 		switch head.kw {
 		case "func", "lemma":
 			c.Kind = head.kw
@@ -241,6 +274,10 @@ func parseContractText(text, path, pkg string, cs *ContractSet) error {
 				for _, v := range strings.Split(rc.text[i+4:], ",") {
 					c.SplitVals = append(c.SplitVals, strings.TrimSpace(v))
 				}
+			case "panic_invariant":
+				c.PanicInv = append(c.PanicInv, cl)
+			case "reset_first":
+				c.ResetFirst = append(c.ResetFirst, splitClauses(cl)...)
 			case "establishes":
 				c.Establishes = true
 			case "owns":
@@ -309,7 +346,7 @@ func splitClauses(c Clause) []Clause {
 }
 
 func newContractSet() *ContractSet {
-	return &ContractSet{Funcs: map[string]*Contract{}, Ifaces: map[string]*Contract{}, Types: map[string]*Contract{}}
+	return &ContractSet{Preds: map[string]*Predicate{}, Funcs: map[string]*Contract{}, Ifaces: map[string]*Contract{}, Types: map[string]*Contract{}}
 }
 
 func (cs *ContractSet) sortedFuncKeys() []string {
